@@ -330,6 +330,34 @@ func RunFlatten(b *Bundle, o Opts, env Env, fault func(n int, path string) Fault
 	return res
 }
 
+// ReFlatten calls Flatten again on the live objects of a finished execution: the same document object and the same
+// analyzed Spec the first call was given (a caller that keeps its FlattenOpts and calls Flatten a second time).
+func ReFlatten(first *FlattenResult, b *Bundle, o Opts, env Env) *FlattenResult {
+	res := &FlattenResult{Doc: first.Doc, Analyzed: first.Analyzed}
+	l := Install(b)
+	res.Loader = l
+	hz := env.Horizon
+	if hz == 0 {
+		hz = DefaultHorizon
+	}
+	e := mcrt.Reset(env.Policy, env.Chooser, hz)
+	Guard(&res.Outcome, func() {
+		err := analysis.Flatten(analysis.FlattenOpts{
+			Spec: first.Analyzed, BasePath: VRoot + "/" + b.Root,
+			Minimal: o.Minimal, Expand: o.Expand, RemoveUnused: o.RemoveUnused, KeepNames: o.KeepNames, ContinueOnError: o.ContinueOnError, Verbose: o.Verbose,
+		})
+		if err != nil {
+			res.Err = err.Error()
+		}
+	})
+	res.Steps = e.Steps
+	res.Loads = len(l.Loads)
+	if res.Doc != nil && !res.Crashed() {
+		Guard(&res.Outcome, func() { res.Out = Marshal(res.Doc) })
+	}
+	return res
+}
+
 // SortedKeys of a JSON object.
 func SortedKeys(m map[string]any) []string {
 	ks := make([]string, 0, len(m))
